@@ -149,6 +149,8 @@ pub struct Scripted<K: Kit> {
     pub pos: Cell<usize>,
     /// fail (return Err) at the k-th call (0-based) if set
     pub fail_at: Cell<Option<(usize, u8)>>,
+    /// fail at EVERY call from the k-th on
+    pub fail_from: Cell<Option<(usize, u8)>>,
     pub calls: Cell<usize>,
     pub log_on: Cell<bool>,
     pub log: RefCell<Vec<(u64, K::S)>>,
@@ -172,6 +174,7 @@ impl<K: Kit> Scripted<K> {
             script: RefCell::new(Vec::new()),
             pos: Cell::new(0),
             fail_at: Cell::new(None),
+            fail_from: Cell::new(None),
             calls: Cell::new(0),
             log_on: Cell::new(false),
             log: RefCell::new(Vec::new()),
@@ -207,8 +210,9 @@ impl<K: Kit> StateSpace for Scripted<K> {
         let k = self.calls.get();
         self.calls.set(k + 1);
         self.call_seqs.borrow_mut().push(seq);
-        if let Some((at, kind)) = self.fail_at.get() {
-            if at == k {
+        let failing = self.fail_at.get().filter(|(at, _)| *at == k).or(self.fail_from.get().filter(|(from, _)| k >= *from));
+        if let Some((_, kind)) = failing {
+            {
                 return Err(if kind == 0 {
                     StateSamplingError::UnboundedDimension { dimension_index: 0 }
                 } else {
@@ -270,6 +274,8 @@ pub struct HGoal<K: Kit> {
     pub pos: Cell<usize>,
     pub calls: Cell<usize>,
     pub fail_at: Cell<Option<(usize, u8)>>,
+    /// fail at EVERY call from the k-th on
+    pub fail_from: Cell<Option<(usize, u8)>>,
     pub pred_calls: Cell<usize>,
     pub log_on: Cell<bool>,
     pub sample_log: RefCell<Vec<(u64, K::S)>>,
@@ -290,6 +296,7 @@ impl<K: Kit> HGoal<K> {
             pos: Cell::new(0),
             calls: Cell::new(0),
             fail_at: Cell::new(None),
+            fail_from: Cell::new(None),
             pred_calls: Cell::new(0),
             log_on: Cell::new(false),
             sample_log: RefCell::new(Vec::new()),
@@ -327,8 +334,9 @@ impl<K: Kit> GoalSampleableRegion<K::S> for HGoal<K> {
         let seq = on_cb(Cb::GoalSample);
         let k = self.calls.get();
         self.calls.set(k + 1);
-        if let Some((at, kind)) = self.fail_at.get() {
-            if at == k {
+        let failing = self.fail_at.get().filter(|(at, _)| *at == k).or(self.fail_from.get().filter(|(from, _)| k >= *from));
+        if let Some((_, kind)) = failing {
+            {
                 return Err(if kind == 0 {
                     StateSamplingError::GoalRegionUnsatisfiable
                 } else {
